@@ -128,7 +128,7 @@ VALUE_KINDS = ['attr', 'attr', 'attr', 'attr', 'rename', 'save', 'contributors',
 
 def reader_oracle(kind, seed, nops, kinds=None):
     """returns None or (sig, what)"""
-    doc, gen = c02.base_doc(kind, seed)
+    doc, gen = c02.base_doc(kind, seed, dict(names=True))
     hist = []
     for i in range(nops):
         try:
